@@ -1,6 +1,7 @@
 package main
 
 import (
+	"sync/atomic"
 	"context"
 	"encoding/json"
 	"flag"
@@ -487,6 +488,7 @@ func cmdCheck(args []string) int {
 							resCh := make(chan pres, len(paths))
 							psem := make(chan struct{}, 6)
 							pctx, pcancel := context.WithCancel(context.Background())
+							var retried int32
 							for pi_, pinfo := range paths {
 								pi_, pinfo := pi_, pinfo
 								go func() {
@@ -503,6 +505,16 @@ func cmdCheck(args []string) int {
 										os.WriteFile(filepath.Join("smtdump", sanitize(ob.Name)+fmt.Sprintf(".path%d.smt2", pi_)), []byte(pq+"(check-sat)\n"), 0o644)
 									}
 									pr, pall := solve(pq, j.fr.vc.inputs, to, false)
+									if pr.Status != "unsat" && pr.Status != "sat" && pctx.Err() == nil && atomic.CompareAndSwapInt32(&retried, 0, 1) {
+										// robustness under machine load: the first path of an obligation that
+										// runs out of time gets one more attempt with three times the budget
+										// (sound: only the time limit changes)
+										pr2, pall2 := solve(pq, j.fr.vc.inputs, 3*to, false)
+										pall = append(pall, pall2...)
+										if pr2.Status == "unsat" || pr2.Status == "sat" {
+											pr = pr2
+										}
+									}
 									resCh <- pres{pr, pall, pinfo.lits}
 								}()
 							}
